@@ -20,7 +20,9 @@ ASSUMPTIONS = [
     "paths are absolute; spellings starting with exactly two slashes (implementation-defined in POSIX) are not generated",
     "binary set operations are judged with another contents set and with a one-shot iterator/generator of entries (meaning "
     "the set of its normalised paths, duplicates and respelled duplicates included; the upstream tests drive iter(set)); "
-    "plain lists/tuples of entries or of path strings are executed but recorded as unspecified",
+    "issuperset is additionally judged with a list/tuple/iterator/generator of entries and path strings in any spelling "
+    "(each element is an entry or a path string looked up in the set); for the other operations plain lists/tuples of "
+    "entries or of path strings are executed but recorded as unspecified (the unchanged tree itself disagrees there)",
     "which operand's entry survives union/intersection is not prescribed; any operand's entry is accepted",
     "add/update are last-writer-wins on the path key (map assignment)",
     "mutating operations are only issued on mutable sets; aliasing (s.op_update(s)) is not 'another set' and is skipped",
@@ -36,7 +38,9 @@ REQUIRED_COUNTERS = ("op:remove", "op:discard", "op:getitem", "op:contains", "op
                      "op:change_offset", "op:insert_offset", "op:add_missing", "relocated_entries", "dirs_completed",
                      "hit_via_noncanonical_spelling", "iterator_arg_with_duplicate_keys",
                      "iterator_arg_with_duplicate_keys:symmetric_difference",
-                     "iterator_arg_with_duplicate_keys:symmetric_difference_update")
+                     "iterator_arg_with_duplicate_keys:symmetric_difference_update",
+                     "issuperset_arg_longer_than_set_all_contained:list", "issuperset_arg_longer_than_set_all_contained:tuple",
+                     "issuperset_arg_longer_than_set_all_contained:iter", "issuperset_arg_longer_than_set_all_contained:gen")
 
 NSETS = 3
 COMPONENTS = ["a", "b", "c", "usr", "lib", "x y", "été", ".hid", "a.b", "..."]
@@ -300,6 +304,27 @@ class World:
         elif name in PURE_BIN or name in UPD_BIN or name in PRED_BIN:
             if "olist" in op:
                 return self._unspecified_binary(op)
+            if "omixed" in op:
+                # issuperset(<list/tuple/iterator/generator of entries and path strings>): every element is an entry or
+                # a path string looked up in the set, so the answer is "all normalised paths are keys of the set"
+                assert name == "issuperset"
+                form = op["omixed"]["form"]
+                objs, keys = [], set()
+                for it in op["omixed"]["items"]:
+                    a, key = self.arg(it)
+                    objs.append(a)
+                    keys.add(key)
+                other = {"list": list, "tuple": tuple, "iter": iter, "gen": lambda o: (x for x in o)}[form](objs)
+                exp = keys <= m.keys()
+                self.count("issuperset_plain_iterable:" + form)
+                if len(objs) > len(m.d) and exp:
+                    self.boundary += 1
+                    self.count("issuperset_arg_longer_than_set_all_contained")
+                    self.count("issuperset_arg_longer_than_set_all_contained:" + form)
+                self._call(lambda: cs.issuperset(other), ("ok", exp), name, truthy=True)
+                self.check_states(name)
+                self.count("op:" + name)
+                return "judged"
             extra_vals = {}
             if "oiter" in op:
                 # a one-shot iterator / generator of entries stands for "the set of its normalised paths"
@@ -504,6 +529,32 @@ def pick_key(rng, world, t, prefix):
     return gen_key(rng, prefix)
 
 
+def gen_mixed_arg(rng, g, world, t, prefix):
+    """Elements (entries and path strings) for issuperset: mostly keys of the target itself, each named one to three
+    times (other spelling, entry + path string, plain duplicate), so that the argument is often longer than the set
+    although everything is contained; sometimes a foreign key is mixed in."""
+    keys = sorted(world.model[t].d)
+    chosen = rng.sample(keys, rng.randrange(0, len(keys) + 1)) if keys else []
+    if keys and rng.random() < 0.4:
+        chosen = list(keys)
+    if rng.random() < 0.25:
+        chosen.append(pick_key(rng, world, t, prefix))
+    style = rng.choice(["str", "entry", "mixed", "mixed"])
+    items = []
+    for k in chosen:
+        for _ in range(rng.choice([1, 2, 2, 3])):
+            kind = style if style != "mixed" else rng.choice(["str", "entry"])
+            if kind == "str":
+                items.append({"k": "str", "p": spell(rng, k, plain=0.25)})
+            else:
+                typ = world.model[t].get(k)[0] if world.model[t].has(k) and rng.random() < 0.6 else None
+                items.append({"k": "entry", "e": g.entry(key=k, typ=typ)})
+            if rng.random() < 0.15:
+                items.append(dict(items[-1]))
+    rng.shuffle(items)
+    return items
+
+
 def gen_iter_arg(rng, g, world, t, prefix):
     """Entries for an iterator argument: keys of the target / another set / fresh ones, every entry a new object in a
     random spelling; in most cases some path occurs twice (plain duplicate or a second spelling, same or other type)."""
@@ -566,6 +617,9 @@ def gen_op(rng, g, world, prefix):
             else:
                 t = rng.choice(mut)
         others = [i for i in range(NSETS) if i != t]
+        if name == "issuperset" and rng.random() < 0.45:
+            return {"op": name, "t": t, "omixed": {"form": rng.choice(["list", "tuple", "iter", "gen"]),
+                                                    "items": gen_mixed_arg(rng, g, world, t, prefix)}}
         if rng.random() < 0.06:
             return {"op": name, "t": t,
                     "olist": {"i": rng.choice(others), "form": rng.choice(["list_entries", "tuple_entries", "list_paths"])}}
@@ -635,7 +689,8 @@ def run_history(sets_spec, ops, ctx=None):
 
 def signature(fail):
     op = fail["op"]
-    a = op.get("arg", {}).get("k") or ("set" if "o" in op else "iterator" if "oiter" in op else "")
+    a = op.get("arg", {}).get("k") or ("set" if "o" in op else "iterator" if "oiter" in op else
+                                       "plain-iterable" if "omixed" in op else "")
     return (fail["kind"], op["op"], a)
 
 
@@ -679,7 +734,8 @@ def shrink(sets_spec, ops, fail, budget=120):
 
 def make_witness(sets_spec, ops, fail):
     op = fail["op"]
-    a = op.get("arg", {}).get("k") or ("set" if "o" in op else "iterator" if "oiter" in op else "")
+    a = op.get("arg", {}).get("k") or ("set" if "o" in op else "iterator" if "oiter" in op else
+                                       "plain-iterable" if "omixed" in op else "")
     return {"sets": sets_spec, "ops": ops[: fail["step"] + 1], "step": fail["step"], "failed_op": op,
             "detail": fail["detail"], "kind": fail["kind"], "rule": op["op"] + ((":" + a) if a else "")}
 
